@@ -579,3 +579,156 @@ func containersKeepEveryEntry(x *Ctx) {
 			}, nil)
 	}
 }
+
+// mapKeysAreStrings (C10.R4): reflect.Value.String() of a key that is not of kind string answers "<int Value>" and
+// the like instead of panicking. In anyAssemble every path that answers with qp.Map knows the key kind of the
+// value's type to be reflect.String.
+func mapKeysAreStrings(x *Ctx) {
+	f := x.fn("C10.R4", "pkg/policy/literal.anyAssemble")
+	if f == nil {
+		return
+	}
+	n, bad := 0, ""
+	for _, p := range x.paths("C10.R4", f) {
+		if p.End != paths.EndReturn || len(p.Results()) != 1 || p.Results()[0] == nil {
+			continue
+		}
+		r := p.Results()[0]
+		if r.Op != "call" || !strings.HasSuffix(r.Name, "fluent/qp.Map") {
+			continue
+		}
+		n++
+		known := false
+		for _, fc := range p.Facts {
+			s := fc.Atom.String()
+			if fc.Pol && fc.Atom.Op == "eq" && strings.Contains(s, "const(24)") && strings.Contains(s, "reflect.Type.Key") && strings.Contains(s, "Kind]") {
+				known = true
+			}
+		}
+		if !known {
+			bad += "a map is assembled on a path that does not know its keys to be of kind string:\n" + p.String() + "\n"
+		}
+	}
+	x.C.Obl("C10.R4", "map-keys-are-strings:anyAssemble", x.pos(f), "a map value is assembled only where the keys of its type are known to be strings", bad == "" && n > 0, firstLines(bad, 12))
+}
+
+// pointValidated (C16.R6): an ECDSA-typed secp256k1 key becomes a secp256k1 key only through the parser that checks
+// the point (on the curve, coordinates in range): every success path of coerceECDSAToSecp256k1 carries the success
+// of secp256k1.ParsePubKey and returns the key it parsed.
+func pointValidated(x *Ctx) {
+	f := x.fn("C16.R6", "did.coerceECDSAToSecp256k1")
+	if f == nil {
+		return
+	}
+	sel, unk, err := x.E.Select(f, paths.WantSuccess)
+	if err != nil || len(unk) > 0 || len(sel) == 0 {
+		x.C.Unresolved("C16.R6", "point-validated", x.pos(f), fmt.Sprintf("success paths not decided: %v, %d undecided", err, len(unk)))
+		return
+	}
+	bad := ""
+	for _, v := range sel {
+		ok := false
+		for _, fc := range v.AllFacts() {
+			if sub := paths.NilCheckOf(fc.Atom); sub != nil && fc.Pol && strings.Contains(sub.String(), ".ParsePubKey](") && strings.HasSuffix(sub.String(), "#1") {
+				ok = true
+			}
+		}
+		if !ok {
+			bad += "a key is handed out on a path that does not know secp256k1.ParsePubKey to have accepted the point:\n" + v.Path.String() + "\n"
+		}
+	}
+	x.C.Obl("C16.R6", "point-validated", x.pos(f), "the coerced key went through secp256k1.ParsePubKey (on-curve and range check)", bad == "", firstLines(bad, 10))
+}
+
+// noRepeatedRendering (C09.T2): a function that can reach itself through the call graph does not call the same
+// method on the same value twice (s.String() evaluated twice per level of a nested statement doubles the work at
+// every level: 2^depth for a policy a few hundred bytes long).
+func noRepeatedRendering(x *Ctx) {
+	n, bad := 0, ""
+	for _, f := range x.P.ModuleFuncs() {
+		if !x.P.IsLibrary(f) || len(f.Blocks) == 0 {
+			continue
+		}
+		type key struct {
+			recv ssa.Value
+			name string
+		}
+		seen := map[key]token.Pos{}
+		var dups []key
+		for _, b := range f.Blocks {
+			for _, in := range b.Instrs {
+				c, ok := in.(*ssa.Call)
+				if !ok || !c.Call.IsInvoke() || len(c.Call.Args) != 0 {
+					continue
+				}
+				k := key{c.Call.Value, c.Call.Method.Name()}
+				if _, had := seen[k]; had {
+					dups = append(dups, k)
+				} else {
+					seen[k] = c.Pos()
+				}
+			}
+		}
+		if len(dups) == 0 {
+			continue
+		}
+		n++
+		for _, k := range dups {
+			// only where the recursion goes through this very call: a method of the module with that name can reach f
+			through := false
+			for _, h := range x.P.ModuleFuncs() {
+				if h.Name() == k.name && h.Signature.Recv() != nil && x.P.IsLibrary(h) && (h == f || x.P.ReachFrom(h)[f]) {
+					through = true
+					break
+				}
+			}
+			if !through {
+				continue
+			}
+			bad += fmt.Sprintf("%s: %s calls %s() twice on the same value and can reach itself again: the work doubles with every level of nesting\n", x.P.Pos(seen[k]), load.ShortName(f), k.name)
+		}
+	}
+	x.C.Obl("C09.T2", "no-repeated-rendering", "-", "no function that takes part in a recursion invokes the same parameterless method twice on the same value", bad == "", dedupLines(bad))
+	_ = n
+}
+
+// keyMemoryUntouched (C19.R7): the crypto helpers do not write into the caller's key or ciphertext: no append whose
+// destination is (a slice of) a parameter - with spare capacity behind the key, append writes into the memory next
+// to it (another key cut from the same material).
+func keyMemoryUntouched(x *Ctx) {
+	n, bad := 0, ""
+	for _, f := range x.P.ModuleFuncs() {
+		if !x.P.IsLibrary(f) || len(f.Blocks) == 0 || !strings.HasSuffix(x.P.PkgPathOf(f), "/pkg/meta/internal/crypto") {
+			continue
+		}
+		n++
+		for _, b := range f.Blocks {
+			for _, in := range b.Instrs {
+				c, ok := in.(*ssa.Call)
+				if !ok {
+					continue
+				}
+				bi, ok := c.Call.Value.(*ssa.Builtin)
+				if !ok || bi.Name() != "append" || len(c.Call.Args) == 0 {
+					continue
+				}
+				v := c.Call.Args[0]
+				for i := 0; i < 6; i++ {
+					if s, ok := v.(*ssa.Slice); ok {
+						if s.Max != nil {
+							v = nil // a full slice expression caps the capacity: append copies
+							break
+						}
+						v = s.X
+						continue
+					}
+					break
+				}
+				if p, ok := v.(*ssa.Parameter); ok {
+					bad += fmt.Sprintf("%s: %s appends to its parameter %s: with spare capacity the bytes go into the caller's memory behind it\n", x.P.Pos(in.Pos()), load.ShortName(f), p.Name())
+				}
+			}
+		}
+	}
+	x.C.Obl("C19.R7", "key-memory-untouched", "-", fmt.Sprintf("none of the %d functions of the crypto package appends to a slice it was given", n), bad == "" && n > 0, dedupLines(bad))
+}
